@@ -898,6 +898,28 @@ func runWebUI(c *Case, out *Out) {
 		target = "/" + hs + ".m3u"
 	case "single-dirplaylist":
 		target = "/" + hs + "/?playlist"
+	case "debug-pprof":
+		target = "/debug/pprof/"
+	case "debug-pprof-cmdline":
+		target = "/debug/pprof/cmdline"
+	case "debug-pprof-goroutine":
+		target = "/debug/pprof/goroutine?debug=1"
+	case "debug-pprof-heap":
+		target = "/debug/pprof/heap"
+	case "debug-pprof-symbol":
+		target = "/debug/pprof/symbol"
+	case "debug-vars":
+		target = "/debug/vars"
+	case "debug-requests":
+		target = "/debug/requests"
+	case "debug-events":
+		target = "/debug/events"
+	case "metrics":
+		target = "/metrics"
+	case "favicon":
+		target = "/favicon.ico"
+	case "deep-path":
+		target = "/a/b/c/d/e"
 	}
 	if c.Method == "GET" || c.Method == "HEAD" {
 		if body != "" {
